@@ -1,2 +1,4 @@
-(* C01 uses the shared sale-world correspondence vocabulary. *)
+(* C01 uses the shared sale-world correspondence vocabularies: SaleCorr (six vending
+   minters) and SaleOeCorr (three open-edition minters and the base minter). *)
 From LP Require Export SaleCorr.
+From LP Require Export SaleOeCorr.
